@@ -3,6 +3,8 @@ import itertools
 
 from . import dast, refsem
 
+FOCI = ["exclude-crossed-derived", "preamble-in-crossing", "exclude+preamble", "implied-early-window", "weighted-exclusion",
+        "leftover", "parallel-start"]
 LEVEL_POOL = ["x", "y", "z", "w"]
 FACTOR_NAMES = ["A", "B", "C", "E"]
 
@@ -32,6 +34,14 @@ def swarm(rng, tier="quick"):
         "derived_targets": rng.random() < 0.5,
         "max_T": 10 if thorough else 8,
         "max_cross": 8 if thorough else 6,
+        # block combinators are part of "every design the constructors accept" for every sampler-visible property
+        "combinators": rng.random() < 0.3,
+        # conjunction boosting: a uniformly random design almost never carries three or four specific features at once
+        # (an Exclude on a crossed derived level AND a preamble trial, a weighted crossing AND a leftover run ...), yet
+        # that is where the defects found so far live.  Four runs in ten pick one focus, which forces such a conjunction.
+        "focus": rng.choice([None] * 6 + FOCI),
+        # constraint targets prefer crossed and derived factors (uniform choice mostly hits uncrossed basic factors)
+        "target_bias": rng.random() < 0.6,
     }
     if not cfg["kinds"]:
         cfg["kinds"] = [rng.choice(dast.ALL_CONSTRAINT_KINDS)]
@@ -138,6 +148,24 @@ def _gen_derived(rng, cfg, factors, j):
     return f
 
 
+def _retable(rng, cfg, factors, d):
+    """Fresh total tables for derived factor `d` after its window was edited (same levels, same args)."""
+    d = dict(d)
+    d["levels"] = [{"name": l["name"], "weight": l.get("weight", 1), "table": []} for l in d["levels"]]
+    F = refsem.build_factors({"factors": factors + [d]})
+    universe = sorted(refsem.key_universe(F[d["id"]], True), key=repr)
+    if len(universe) > 400:
+        return None
+    rng.shuffle(universe)
+    nlev = len(d["levels"])
+    for n, key in enumerate(universe):
+        i = n if n < nlev else rng.randrange(nlev)
+        d["levels"][i]["table"].append(_row_json(key, d["window"]["width"]))
+    for l in d["levels"]:
+        l["table"].sort(key=repr)
+    return d
+
+
 def _flat(key):
     for x in key:
         if isinstance(x, tuple):
@@ -179,7 +207,14 @@ def _gen_constraint(rng, cfg, factors, design_ids, crossing_ids, approxT, cid, k
         n = rng.choice([2, 2, 3]) if len(basics) >= 3 else 2
         c["factors"] = rng.sample(basics, n)
         return c
-    fid = rng.choice(targets)
+    if cfg.get("target_bias") and len(targets) > 1:
+        weighted = []
+        for i in targets:
+            wgt = 1 + (2 if i in crossing_ids else 0) + (2 if fb[i]["kind"] == "derived" else 0)
+            weighted.extend([i] * wgt)
+        fid = rng.choice(weighted)
+    else:
+        fid = rng.choice(targets)
     f = fb[fid]
     lv = rng.choice([l[0] if f["kind"] == "basic" else l["name"] for l in f["levels"]])
     whole = kind in dast.RUN_KINDS and rng.random() < 0.15
@@ -201,8 +236,13 @@ def _weights(f):
 
 def gen_cross_design(rng, cfg, tier="quick", constraint_kinds=None, single=True):
     """A single CrossBlock design.  Returns AST or None (caller counts the skip)."""
-    nb = rng.randint(1, cfg["max_basic"])
+    focus = cfg.get("focus")
+    if focus == "weighted-exclusion":
+        cfg = dict(cfg, weights=True, max_basic=max(2, cfg["max_basic"]))
+    nb = rng.randint(2 if focus in ("exclude-crossed-derived", "exclude+preamble", "weighted-exclusion") else 1, max(2, cfg["max_basic"]) if focus else cfg["max_basic"])
     factors = [_gen_basic(rng, cfg, i, None) for i in range(nb)]
+    if focus == "weighted-exclusion" and all(w == 1 for f in factors for _, w in f["levels"]):
+        rng.choice(rng.choice(factors)["levels"])[1] = 2
     nd = cfg["derived"] if rng.random() < 0.8 else 0
     j = 0
     for _ in range(nd):
@@ -210,14 +250,56 @@ def gen_cross_design(rng, cfg, tier="quick", constraint_kinds=None, single=True)
         if d is not None:
             factors.append(d)
             j += 1
+    forced_cross = []        # derived factors the focus wants in the crossing
+    forced_out = []          # ... and out of crossing and constraints (implied factors)
+
+    def only(**kw):
+        c = dict(cfg, win_within=False, win_transition=False, win_window=False, nested_derived=False, bad_tables=False)
+        c.update(kw)
+        return c
+    if focus in ("exclude-crossed-derived", "exclude+preamble", "weighted-exclusion"):
+        d = _gen_derived(rng, only(win_within=True), factors, j)
+        if d is not None:
+            factors.append(d)
+            forced_cross.append(d["id"])
+            j += 1
+    if focus in ("preamble-in-crossing", "exclude+preamble"):
+        d = _gen_derived(rng, only(win_transition=rng.random() < 0.7, win_window=True), [f for f in factors if f["kind"] == "basic"], j)
+        if d is not None and d["window"]["stride"] == 1 and d["window"]["kind"] != "within":
+            factors.append(d)
+            forced_cross.append(d["id"])
+            j += 1
+    if focus == "implied-early-window":
+        d = _gen_derived(rng, only(win_window=True), [f for f in factors if f["kind"] == "basic"], j)
+        if d is not None:
+            w = d["window"]
+            w["kind"] = "window"
+            if w["width"] < 2:
+                d = None
+            else:
+                w["start"] = rng.randint(0, w["width"] - 2)
+        if d is not None:
+            # the tables were generated for another start: regenerate them for the universe of this window
+            d2 = _retable(rng, cfg, factors, d)
+            if d2 is not None:
+                factors.append(d2)
+                forced_out.append(d2["id"])
+                j += 1
     design_ids = [f["id"] for f in factors]
     # crossing
-    eligible = [f for f in factors if f["kind"] == "basic" or (cfg["cross_derived"] and f["window"]["stride"] == 1)]
+    eligible = [f for f in factors if f["id"] not in forced_out and (f["kind"] == "basic" or (cfg["cross_derived"] and f["window"]["stride"] == 1))]
     crossing = []
-    if not (cfg["empty_crossing"] and rng.random() < 0.5):
+    if not (cfg["empty_crossing"] and rng.random() < 0.5 and not focus):
         order = eligible[:]
         rng.shuffle(order)
         size = 1
+        fbx = {f["id"]: f for f in factors}
+        for fid in forced_cross:
+            ws = sum(_weights(fbx[fid]))
+            if size * ws <= cfg["max_cross"] + 2:
+                crossing.append(fid)
+                size *= ws
+        order = [f for f in order if f["id"] not in crossing]
         for f in order:
             ws = sum(_weights(f))
             if size * ws <= cfg["max_cross"] and (not crossing or rng.random() < 0.6):
@@ -236,12 +318,23 @@ def gen_cross_design(rng, cfg, tier="quick", constraint_kinds=None, single=True)
     cons = []
     nc = cfg["n_constraints"]
     for i in range(nc):
-        c = _gen_constraint(rng, cfg, factors, design_ids, crossing, approxT, i, constraint_kinds)
+        c = _gen_constraint(rng, cfg, [f for f in factors if f["id"] not in forced_out], [i_ for i_ in design_ids if i_ not in forced_out], crossing, approxT, i, constraint_kinds)
         if c is not None:
             cons.append(c)
     rcc = not (cfg["rcc_false"] and rng.random() < 0.7)
     if any(c["kind"] == "exclude" for c in cons) and rng.random() < 0.6:
         rcc = False
+    if focus in ("exclude-crossed-derived", "exclude+preamble", "weighted-exclusion") and constraint_kinds is None:
+        within = [fid for fid in crossing if fb[fid]["kind"] == "derived" and fb[fid]["window"]["kind"] == "within"]
+        if within:
+            fid = rng.choice(within)
+            lv = rng.choice(fb[fid]["levels"])["name"]
+            cons.append({"id": "cx", "kind": "exclude", "target": [fid, lv], "spelling": rng.choice(["tuple", "level"])})
+            rcc = rng.random() < 0.15
+    if focus == "leftover" and constraint_kinds is None and approxT >= 2:
+        cons = [c for c in cons if c["kind"] != "mintrials"]
+        q = rng.randint(1, approxT)
+        cons.append({"id": "cl", "kind": "mintrials", "n": min(cfg["max_T"] + 2, approxT * rng.choice([1, 1, 2]) + q)})
     ast = {"factors": factors,
            "block": {"kind": "cross", "design": design_ids, "crossing": crossing, "constraints": cons, "rcc": rcc}}
     return ast
@@ -249,6 +342,39 @@ def gen_cross_design(rng, cfg, tier="quick", constraint_kinds=None, single=True)
 
 def gen_design(rng, cfg, tier="quick", **kw):
     """Top-level generator: a CrossBlock, or (when the swarm enables it) a combinator expression."""
+    focus = cfg.get("focus")
+    if focus == "parallel-start" and rng.random() < 0.8:
+        from . import gencomb
+        ast = gencomb.gen_combinator_design(rng, dict(cfg, derived=max(1, cfg.get("derived", 0)), cross_derived=True), tier, rng.choice(["multicross", "multicross", "merge"]))
+        if ast is not None:
+            return ast
+    if focus == "leftover" and rng.random() < 0.5:
+        # a Stroop-like block whose trial count leaves a partial last run: MinimumTrials on the block or Repeat around it
+        ast = gen_template_design(rng, cfg, tier)
+        b = ast["block"]
+        fb = {f["id"]: f for f in ast["factors"]}
+        if rng.random() < 0.6:
+            # the derived factor in the crossing, its source factors (partly) outside it, and a weight on one of its levels
+            b["crossing"] = rng.choice([["d0"], ["d0"], ["f0", "d0"], ["f1", "d0"]])
+            b["constraints"] = [c for c in b["constraints"] if c["kind"] not in ("exclude",)]
+            b["rcc"] = True
+            if rng.random() < 0.7 and all(l.get("weight", 1) == 1 for l in fb["d0"]["levels"]):
+                rng.choice(fb["d0"]["levels"])["weight"] = 2
+        size = 1
+        ncomb = 1
+        for c in b["crossing"]:
+            size *= sum(_weights(fb[c]))
+            ncomb *= len(fb[c]["levels"])
+        b["constraints"] = [c for c in b["constraints"] if c["kind"] != "mintrials"]
+        q = rng.choice([ncomb, ncomb, 1, size - 1, rng.randint(1, max(1, size))])
+        n = max(1, min(size * rng.choice([1, 1, 2]) + max(0, q), cfg.get("max_T", 8) + 3))
+        mt = {"id": "rm", "kind": "mintrials", "n": n}
+        if rng.random() < 0.5:
+            b["constraints"].append(mt)
+            return ast
+        return {"factors": ast["factors"], "block": {"kind": "repeat", "block": b, "constraints": [mt]}}
+    if focus and focus not in ("parallel-start", "leftover") and rng.random() < 0.85:
+        return gen_cross_design(rng, cfg, tier, **kw)
     if cfg.get("combinators") and rng.random() < 0.6:
         from . import gencomb
         ast = gencomb.gen_combinator_design(rng, cfg, tier)
